@@ -275,6 +275,7 @@ class CachedStore(Entity):
                 evict_key = self._eviction_policy.evict()
                 if evict_key is None:
                     break
+                self._write_back_evicted(evict_key)
                 self._cache.pop(evict_key, None)
                 self._dirty_keys.discard(evict_key)
                 self._evictions += 1
@@ -284,6 +285,17 @@ class CachedStore(Entity):
             self._eviction_policy.on_access(key)
 
         self._cache[key] = value
+
+    def _write_back_evicted(self, key: str) -> None:
+        """Persist a dirty entry that is about to be evicted.
+
+        Eviction happens inside a non-generator helper, so the write-back
+        cannot pay a latency here; the value is stored synchronously so
+        that unflushed data is never silently dropped.
+        """
+        if key in self._dirty_keys and key in self._cache:
+            self._backing_store.put_sync(key, self._cache[key])
+            self._writebacks += 1
 
     def _cache_remove(self, key: str) -> None:
         """Remove an entry from cache."""
